@@ -74,5 +74,26 @@ CHECKS = {
    text="read_password: no exception escapes for any line content, only check_valid-accepted passwords are yielded, num_passwords advances by exactly the number yielded; "
         "run_trainer: three passes built from identical arguments, pass-1 N used everywhere. Bounded: $HEX[] / --prefixcount / junk-line forms train byte-identical rulesets.",
    note="hex/strip/split/join identities carried by the bounded stand-in; negative count prefixes outside the domain"),
+ 'C15': dict(level='other', technique=TECH + "; MarkovCracker abstracted to (level sequence, cursor) by trusted contracts, pickle round trip and session cycles as bounded stand-ins",
+   text="omen_generate_guesses pickles the cursor right after the last emitted guess exactly when it stops on a quit; restore_omen emits from the pickled cursor a prefix of the remaining strings "
+        "of the level, all of them unless the user quits again; CrackingSession.run resumes a Markov level first, and only, when the loaded options hold the cursor option; "
+        "_save_session writes that option exactly when this process stopped inside a Markov level, so later cycles do not replay the remainder. Bounded: every cut position on the real MarkovCracker, "
+        "three-session cycles on a trained ruleset. Known finding F17 (quit inside the last pre-terminal's level is not saved).",
+   note="MarkovCracker.next_guess/save_session/load_session trusted (C10's subject); A-PICKLE; rely/guarantee sequentialisation of the keyboard thread"),
+ 'C11': dict(level='other', technique=TECH + "; guesser side and file round trip by a bounded stand-in",
+   text="find_omen_level (trainer tables) and OmenScorer.parse (IP/CP/LN tables) each return ln + ip + the sum of the transition levels of every n-gram and -1 exactly when the length is "
+        "out of range or an n-gram is absent, for every string and every table (recursive spec functions); lemma level_agree: with corresponding tables the two coincide. "
+        "Bounded: trainer level == scorer level == level at which the real MarkovCracker emits the string, through the real files.",
+   note="strings as an uninterpreted sort with length/char/slice axioms; table correspondence (writers/readers, smoothing) only bounded; guesser generator is C10's subject"),
+ 'C10': dict(level='other', technique=TECH + " for the level search, string formatting and first-level search; exact enumeration by a labelled bounded stand-in",
+   text="Deductive for all inputs: _find_cp returns the highest level in [bottom, min(top, max_level)] at which the prefix has transitions (exactly that list) and (None, None) exactly when "
+        "none exists; _format_guess is the initial n-gram followed by the letters the parse tree points at; _find_first_object returns the lowest populated level in 0..max_level inclusive. "
+        "Bounded (never counted as proved): the multiset emitted per level equals a brute-force enumeration, for shuffled level histories sharing one cache; pickle round trip at every cut.",
+   note="the in-place backtracking successor (next_guess, _fill_out_parse_tree, Optimizer) is outside the verifiable subset; exactness rests on the stated bound"),
+ 'C18': dict(level='other', technique=TECH + "; statement slice of save_omen_rules_to_disk extracted mechanically; recursive count trusted and compared with the real generator by a bounded stand-in",
+   text="calc_omen_keyspace (all models, all max_level/max_keyspace): every listed level holds the complete sum over initial n-grams with ip_level <= level and lengths >= n-gram size "
+        "with length level <= the rest of the recursive count for (rest, length - ngram + 1 transitions); the cut-off never leaves a partial level. Slice of save_omen_rules_to_disk: "
+        "pcfg_omen_prob lists exactly the levels with non-zero keyspace, each with (passwords at level / N) / keyspace. Bounded: listed keyspace == number of distinct strings the real MarkovCracker emits.",
+   note="_rec_calc_keyspace trusted (RecCount uninterpreted); dict.items() contract assumed; A-FP-INT (ints below 2**53 convert exactly) used for the non-zero divisor only"),
 }
 NOT_APPLICABLE = {}
